@@ -13,7 +13,7 @@ EN = "exhaustive enumeration of a finite input/configuration space executed on t
 
 CLAIMS = {
     "C01": (H, "model_checking", MC,
-            "every assignment history up to the stated depth over small adversarial worlds (nested siblings, list items, attributes, computed keys, whole-container readers, FunctionTask, LinearKnob) is executed on the real Manager and compared with the reference model after every operation; plus updates with several start locations (functions generated for two inputs), special float values, and a finite deep/wide graph family up to 20000 tasks",
+            "every assignment history up to the stated depth over small adversarial worlds (nested siblings, list items, attributes, computed keys, whole-container readers, FunctionTask, LinearKnob) is executed on the real Manager and compared with the reference model (contents AND the set of definitions) after every operation; plus updates with several start locations (functions generated for two inputs), special float values, and a finite deep/wide graph family up to 20000 tasks",
             "bounded depth, two-value alphabet; compiled build of the working tree; hash seeds enumerated; the sibling-cycle defect is a listed known finding recognised by a four-condition classifier"),
     "C02": (H, "model_checking", MC,
             "every assignment of every explored history is executed once per permutation of the start set (toposort seam) and per hash seed; its write trace must be exactly the model's trigger set, once each, in precise data-flow order; cyclic alphabets for termination/at-most-once; toposort itself on all digraphs with <= 4 nodes",
@@ -35,7 +35,7 @@ CLAIMS.update({
             "all item/attribute paths of depth <= 2 over an adversarial key pool (quotes, brackets, dots, unicode, look-alike text, ints, floats, tuples) and depth 3-4 over a sub-pool, ALL ordered pairs compared with ==, hash and dict membership against structural equality; expression trees built twice; 4x10^5-key family through a dict",
             "keys within the pool are pairwise unequal Python values; labels are identifiers"),
     "C07": (H, "model_checking", MC,
-            "every history of Table-API mutations (cell assignment into the index column by position and by name, whole-column and attribute-style assignment, other cells, new/deleted/popped columns, appended rows, switching the index column) interleaved with cache-building lookups, to the depth bound; after every operation every (name, count, offset) designator in string and tuple form is resolved through get/set/get_index/floordiv on an own replica and compared with a linear scan; unique labels and show() resolve back",
+            "every history of Table-API mutations (cell assignment into the index column by position, by name and several at once through slices / position lists / masks, whole-column and attribute-style assignment, other cells, new/deleted/popped columns, appended rows, switching the index column) interleaved with cache-building lookups, to the depth bound; after every operation every (name, count, offset) designator in string and tuple form is resolved through get/set/get_index/floordiv on an own replica and compared with a linear scan; unique labels and show() resolve back",
             "names avoid the separator substrings; offsets only when landing inside the table; tables of 0..5 rows over a 3-name alphabet"),
     "C12": (H, "model_checking", MC,
             "on every manager state reached by assignment histories over every node class: pickle round trip, identical dump, index consistency and verify() on the copy, mirrored follow-up assignments on both, independence of the two",
@@ -56,7 +56,7 @@ CLAIMS.update({
             "ALL index columns over a 3-name alphabet of length 0..5 (plus fixed larger tables) x every selector of the documented grammar (positions, position lists, masks, slices, regex with ::count and <<k / >>k, name spans, value ranges with both/one/no bound, name lists) through rows/indices/mask against a naive reference over the raw columns; ALL ordered pairs of a 40-selector core for rows[s1,s2] == rows[s1].rows[s2]; repeated per hash seed with result digests compared",
             "names distinct under case folding, no regex metacharacters; explicit lists keep the given order (pinned by the suite); shifts judged only when landing inside"),
     "C14": (H, "model_checking", MC,
-            "every history of derivations (rows/cols incl. expressions/+/*/concatenate/_copy/_t/reverse/head/tail) and column assignments up to the depth bound from base tables of 0..3 rows with float/int/string/object columns and a scalar entry; after every operation: rectangularity invariant, source snapshot unchanged around the derivation, contents equal a plain-list model, scalars carried over, column expressions equal numpy element-wise",
+            "every history of derivations (rows incl. integer-array selectors that are columns of the table / cols incl. expressions/+/*/concatenate/_copy/_t/reverse/head/tail) and column assignments up to the depth bound from base tables of 0..3 rows with float/int/string/object columns, a scalar and a vector-valued non-column entry; the constructor over dtype triples x ragged lengths and over every col_names / index request; after every operation: rectangularity invariant, source snapshot unchanged around the derivation, contents equal a plain-list model, scalars carried over, column expressions equal numpy element-wise",
             "write isolation of later assignments through shared arrays is not claimed by the property and not demanded"),
 })
 
@@ -65,7 +65,7 @@ CLAIMS.update({
             "full product of a configuration grid (18 merit-function families incl. inconsistent / rank-deficient / non-monotone ones x starts x limits x tolerances incl. unreachable x knob and target weights x n_steps_max x Broyden x disabled knobs/targets), re-use of an optimizer after the knobs were moved, and fault enumeration: every call position of the user's action during solve() raising once; normal return => independent evaluation within every active tolerance (exact); exception => knobs and flags equal log row 0",
             "assert_within_tol / restore_if_fail at their defaults; starts strictly inside the limits; no NaN-producing functions"),
     "C10": (E, "exploration", EN,
-            "full product of a grid with exterior/far solutions: limit boxes x per-knob max_step (uniform, different per knob, partial) x weights x persistent and one-call disabling of knobs/targets (by index, tag and name) x step(n)/solve() x Broyden; every log row and the container inside the closed limits, every Jacobian-step row within max_step, disabled knobs never written with another value, differential twin for disabled targets (bit-identical trajectory), flags restored after one-call disabling",
+            "full product of a grid with exterior/far solutions: limit boxes x per-knob max_step (uniform, different per knob, partial) x weights x persistent and one-call disabling of knobs/targets (by index, tag and name) x step(n)/solve() x Broyden, plus sub-grids over the source of the limits (Vary arguments or the container's vary_default) and check_limits=False; every log row and the container inside the closed limits, every Jacobian-step row within max_step, disabled knobs never written with another value, differential twins for disabled targets (another function; nan / inf away from the start; bit-identical trajectory), flags restored after one-call disabling",
             "limits exact for unit weights / 2 ulp otherwise; max_step with 4e-12 relative slack; see DESIGN section 6 for what counts as changing a disabled knob"),
 })
 
